@@ -15,6 +15,7 @@
     * `view_saves_canonical`   a view saves exactly the elements `v[idx]`, `idx` in canonical order (both overloads)
     * `view_load_exact`        loading into a view of equal extents stores the k-th loaded value in the k-th element and
                                leaves every address outside the view's image unchanged
+    * `view_load_touches_only_view`  the frame part for every well-formed view, without assuming distinct element locations
 -/
 import MultiProofs.SerArchive
 import MultiProofs.SerWalk
@@ -182,6 +183,30 @@ theorem serializeAt_loading (c : Codec τ α) (hc : c.Lawful) : ∀ (ps : List I
       · rw [h, hmp]; exact hyok
       · exact hok q h
 
+/-- without any distinctness assumption (overlapping or broadcast views included): a load touches only the visited addresses -/
+theorem serializeAt_loading_frame (c : Codec τ α) (hc : c.Lawful) : ∀ (ps : List Int) (xs : List α) (m : Mem α),
+    ps.length = xs.length → (∀ p ∈ ps, c.ok (m p)) → (∀ x ∈ xs, c.ok x) → ∀ (rest : List τ),
+    ∃ m', View.serializeAt c (loading (encItems c xs ++ rest)) m ps = some (loading rest, m') ∧ (∀ p, p ∉ ps → m' p = m p)
+  | [], [], m, _, _, _, rest => ⟨m, by simp [View.serializeAt, encItems], fun _ _ => rfl⟩
+  | [], _ :: _, _, h, _, _, _ => by simp at h
+  | _ :: _, [], _, h, _, _, _ => by simp at h
+  | p :: ps, x :: xs, m, hlen, hm, hx, rest => by
+    obtain ⟨y, hy, _, hyok⟩ := hc.law (m p) x (encItems c xs ++ rest) (hm p (by simp)) (hx x (by simp))
+    have hm1 : ∀ q ∈ ps, c.ok ((m.write p y) q) := by
+      intro q hq
+      simp only [Mem.write]; split
+      · exact hyok
+      · exact hm q (List.mem_cons_of_mem _ hq)
+    obtain ⟨m', hm', hout⟩ := serializeAt_loading_frame c hc ps xs (m.write p y) (by simpa using hlen) hm1
+      (fun z hz => hx z (List.mem_cons_of_mem _ hz)) rest
+    refine ⟨m', ?_, ?_⟩
+    · simp only [View.serializeAt, Archive.amp, encItems, List.append_assoc, bind, Option.bind]
+      rw [hy]; simp only [Option.map]; exact hm'
+    · intro q hq
+      have h1 : q ≠ p := fun e => hq (e ▸ List.mem_cons_self)
+      have h2 : q ∉ ps := fun h => hq (List.mem_cons_of_mem _ h)
+      rw [hout q h2]; simp [Mem.write, h1]
+
 /-- **C17, views (saving).**  A view (of any dimensionality, through either `serialize` overload) saves exactly its own
     elements `v[idx]`, `idx` running over the view's index box in canonical order — no other token — and saving does not
     change the memory. -/
@@ -211,6 +236,17 @@ theorem view_load_exact (c : Codec τ α) (hc : c.Lawful) (k : ViewKind) (v : Vi
   refine ⟨m', ?_, h2, ?_⟩
   · simp only [View.load, View.serialize, hps, bind, Option.bind, h1]
   · simp only [canonAddrs, List.map_map] at h3; exact h3
+
+/-- **C17, views (loading), frame part at full strength**: for *every* well-formed view — elements distinct or not —
+    loading as many values as the view has elements succeeds, consumes exactly their tokens and leaves every address
+    that is not an element of the view unchanged. -/
+theorem view_load_touches_only_view (c : Codec τ α) (hc : c.Lawful) (k : ViewKind) (v : View) (hwf : v.lay.WF) (m : Mem α)
+    (xs : List α) (hlen : xs.length = (boxIndices v.exts).length)
+    (hm : ∀ p ∈ canonAddrs v, c.ok (m p)) (hx : ∀ x ∈ xs, c.ok x) (rest : List τ) :
+    ∃ m', v.load c k m (encItems c xs ++ rest) = some (m', rest) ∧ ∀ p, p ∉ canonAddrs v → m' p = m p := by
+  have hps : v.serialAddrs k = some (canonAddrs v) := by rw [serialAddrs_canonical v hwf k, canonAddrs, canon_addrs v hwf]
+  obtain ⟨m', h1, h2⟩ := serializeAt_loading_frame c hc (canonAddrs v) xs m (by simp [canonAddrs, hlen]) hm hx rest
+  exact ⟨m', by simp only [View.load, View.serialize, hps, bind, Option.bind, h1], h2⟩
 
 theorem allRel_map {β : Type} (r : α → α → Prop) (f g : β → α) : ∀ (l : List β), AllRel r (l.map f) (l.map g) ↔ ∀ x ∈ l, r (f x) (g x)
   | [] => by simp [AllRel]
